@@ -136,6 +136,8 @@ class Ctx:
         self.engine = build_engine()
         self.norms = {n: getattr(fl, n)() for n in RN.TNORMS + RN.SNORMS}
         self.a, self.b = self.engine.input_variables[0], self.engine.input_variables[1]
+        # long-lived rule objects that are re-parsed in place for every tree (they carry a weight of 1/4 between uses)
+        self.reused = [fl.Rule.create("if a is t then o is q with 0.250", self.engine) for _ in range(2)]
 
 
 def run_tree(acc: Acc, ctx: Ctx, n_leaves: int, tree, pairs) -> None:
@@ -216,6 +218,38 @@ def run_tree(acc: Acc, ctx: Ctx, n_leaves: int, tree, pairs) -> None:
             acc.violate("value-through-block", {"method": type(method).__name__}, {"antecedent": text, "style": style, "postfix": want_postfix,
                                                                                    "conjunction": conj, "disjunction": disj, "row": list(ROWS[0])},
                         want0, got0, f"{text!r} activated by {type(method).__name__} with {conj}/{disj}: {got0}, grammar value {want0}")
+    # the stored degree survives triggering, also when the conclusions carry hedges and the inputs are arrays
+    hedged = fl.Rule.create(f"if {text} then o is very p and o is not q", engine)
+    block.activation = fl.General()
+    block.rules = [hedged]
+    ctx.a.value, ctx.b.value = batch_a, batch_b
+    wants = [evaluate(tree, row, conj, disj) for row in ROWS]
+    block.activate()
+    del engine.output_variables[0].fuzzy.terms[len(keep):]
+    acc.transitions += 1
+    stored = [float(v) for v in np.atleast_1d(np.asarray(hedged.activation_degree, dtype=float))]
+    if len(stored) == 1:
+        stored = stored * len(wants)
+    if len(stored) != len(wants) or not all(close(x, y, 1e-12, 1e-9) for x, y in zip(stored, wants)):
+        acc.violate("degree-after-trigger", {}, {"antecedent": text, "style": style, "postfix": want_postfix, "conjunction": conj,
+                                                 "disjunction": disj, "row": "batch"}, wants, stored,
+                    f"{text!r}: after triggering hedged conclusions the rule's activation degree is {stored}, grammar value {wants}")
+    # a rule object that held another (weighted) rule before: re-parsed in place, a text without `with` means weight 1
+    for k, reused in enumerate(ctx.reused):
+        if k == 0:
+            reused.parse(f"if {text} then o is p")
+        else:
+            reused.text = f"if {text} then o is p"
+        reused.load(engine)
+        ctx.a.value, ctx.b.value = ROWS[0]
+        got = float(reused.activate_with(ctx.norms[conj], ctx.norms[disj]))
+        acc.transitions += 1
+        if not close(got, want0, 1e-12, 1e-9):
+            acc.violate("weight", {"path": "reparsed-in-place"}, {"antecedent": text, "weight": None, "row": list(ROWS[0]), "conjunction": conj,
+                                                                 "disjunction": disj, "postfix": want_postfix}, want0, got,
+                        f"{text!r} (no weight) parsed into a rule object that held a rule with weight 0.25, at {ROWS[0]}: {got}, expected {want0}")
+        reused.parse("if a is t then o is q with 0.250")
+        reused.load(engine)
     # rule weights (first rendering, first operator pair)
     style, text, _ = rules[0]
     conj, disj = pairs[0]
